@@ -116,27 +116,9 @@ def compare_complete(table, vid, value, sd, path, seen, complete):
         kids = kids[:LIMITS.max_collection_size]
         if len(got) > LIMITS.max_collection_size:
             raise oracle.Mismatch('too-many-children', path, {'got': len(got)})
-    by_name = {}
-    for c in got:
-        if c.name in by_name:
-            raise oracle.Mismatch('duplicate-child-name', path + [str(c.name)])
-        by_name[c.name] = c
-    used = set()
-    for names, child in kids:
-        c = None
-        for nm in names:
-            if nm in by_name:
-                c = by_name[nm]
-                used.add(nm)
-                break
-        if c is None:
-            if need:
-                raise oracle.Mismatch('missing-child', path + [sorted(map(str, names))[0]])
-            continue
-        compare_complete(table, c.vid, child, sd, path + [str(c.name)], seen, complete)
-    extra = [n for n in by_name if n not in used]
-    if extra:
-        raise oracle.Mismatch('invented-child', path + [str(extra[0])])
+    oracle.match_children(got, kids, path, not need,
+                          lambda c, child, sn: compare_complete(table, c.vid, child, sd, path + [str(c.name)], sn,
+                                                                complete), seen)
 
 _NOHIT = object()
 
@@ -171,8 +153,9 @@ class C02(Prop):
                                       st.just(['func', len(pt[0]['funcs']) - 1]))))
         return fd({
             'prog_where': st.one_of(general, chain, chain),
+            # dict keys of any hashable type, so also keys that differ but read the same (1 and '1', None and 'None')
             'values': values.value_recipes(FRIENDLY, min_nodes=6, max_nodes=14 if big else 10, max_items=12,
-                                           str_keys_only=True),
+                                           str_keys_only=False),
             'frame_type': st.sampled_from(['all_frame', 'single_frame', 'all_frame', 'no_frame', None, 'bogus']),
             'watches': st.one_of(
                 st.lists(st.sampled_from(['n', 'n + 1', 'h1', 'h2', 'a', '[n, n]', 'self', 'self.seed', 'G_INT',
